@@ -6,6 +6,14 @@ ROOT = os.path.dirname(os.path.dirname(os.path.abspath(__file__)))
 
 # id -> (technique, level text, level note, design ref)
 CLAIMED = {
+ "C08": ("call-graph reachability of process terminators from session entry points + intraprocedural/interprocedural integer taint with dominating-comparison bounds (SSA)",
+         "Partial, structural: no os.Exit/log.Fatal/explicit panic is reachable from daemon, client or SSH session entry points; every integer read from the wire that reaches an index, slice bound or make length is bounded by dominating comparisons; SumHead fields are range-checked by their reader; connection errors cannot reach the accept loop. Nil dereferences, arithmetic-dependent panics and library panics are NOT decided.",
+         "Trusted: VTA call-graph soundness assumptions; Go runtime semantics of bounds checks. Three genuine defects repaired by fix: commits. The demultiplexer's buffer-size panic is discharged through C17/BUFFER+LENGTH-GATE.",
+         "DESIGN.md §3 C08"),
+ "C17": ("value-flow (use-set) of the demultiplexer and its buffer, SSA guard dominance of length checks, who-may-call for session reads, decision table of the frame reader, constant relations",
+         "Decides the structural reduction of framing transparency: the demultiplexer only sits behind a buffer ≥ the largest frame and is only Read; frame lengths are masked and gated before allocation; error/info/data/unknown tags are dispatched as stated; all session reads are full reads; emitted headers encode a bounded length equal to the bytes written; multiplexing is switched on exactly once on each side.",
+         "Trusted: bufio.Reader.Read behaviour. End-to-end equality across re-framings is not decided.",
+         "DESIGN.md §3 C17"),
  "C13": ("SSA guard dominance (SkipDir only for directories), def/use agreement between rule parsing and rule matching (every settable flag is read or rejected), decision-table extraction of first-match, provenance of the rule list handed to the sender",
          "Partial, structural: excluded files never cut the walk; every flag the parser can set is honoured by the matcher or rejected with an error; no explicit panic under the matcher; first matching rule decides by its include flag; both sender entry points receive the user's rules; the receiving client sends its rules before the list terminator. String semantics of matching are not decided.",
          "Trusted: fs.WalkDir SkipDir semantics. Five genuine defects found by these rules were repaired by fix: commits (known_findings.json).",
